@@ -54,6 +54,16 @@ def _eval_max(prog, f, args, mem):
             lam = e.args[0]
             p = lam.args.args[0].arg
             return tuple(x for x in val(e.args[1], env) if truth(lam.body, dict(env, **{p: x})))
+        if isinstance(e, (ast.GeneratorExp, ast.ListComp, ast.SetComp)) and len(e.generators) == 1 and isinstance(e.generators[0].target, ast.Name):
+            g = e.generators[0]
+            out = []
+            for x in val(g.iter, env):
+                env2 = dict(env, **{g.target.id: x})
+                if all(truth(c, env2) for c in g.ifs):
+                    out.append(val(e.elt, env2))
+            return tuple(out)
+        if isinstance(e, ast.Call) and isinstance(e.func, ast.Name) and e.func.id in ('list', 'tuple') and len(e.args) == 1:
+            return tuple(val(e.args[0], env))
         if isinstance(e, (ast.List, ast.Tuple)):
             return tuple(val(x, env) for x in e.elts)
         if isinstance(e, ast.IfExp):
